@@ -245,35 +245,6 @@ theorem core (s0 : CVol) (hw : WF s0) (alg nowSec : Nat) (ops : List (Nat × Op)
         exact ⟨hpost, Or.inl ⟨p.1, by rw [hidx2, hz]⟩⟩
 
 
-/-! ## volumes reachable from a fresh one are well-formed -/
-
-theorem wf_reachable (kind : Kind) (ttl : Nat × Nat) (pre : List (Nat × Op)) : WF (runOps (CVol.init kind ttl) pre) := by
-  obtain ⟨ext, exta, suf, hs⟩ := suf_run (suf_refl (wf_init kind ttl)) pre
-  refine ⟨hs.bound, hs.own, ?_, ?_⟩
-  · intro k
-    have hil : (runOps (CVol.init kind ttl) pre).ilog = suf := by rw [hs.hilog]; simp [CVol.init]
-    rw [hil, mget_loadFromIdx]
-    have hk := hs.key k
-    cases hl : lastFor suf k with
-    | none =>
-      rw [hl] at hk
-      have : (runOps (CVol.init kind ttl) pre).v.idx k = none := by rw [hk]; simp [CVol.init, Vol.init]
-      simp [memOf, this]
-    | some e =>
-      rw [hl] at hk
-      have hek := (lastFor_some hl).2
-      by_cases hn : e.size < 0
-      · obtain ⟨e', he', hn'⟩ := hk.2.2 hn
-        have : ¬ (0 ≤ e'.size) := by omega
-        simp [memOf, hn, he', this]
-      · have hi := hk.2.1 (by omega)
-        have h0 := hk.1
-        have : ¬ (e.off = 0 ∨ e.size < 0) := by omega
-        have hp : (0 : Int) ≤ e.size := by omega
-        simp only [memOf, Option.bind_some, this, if_false, hi, hp, if_true]
-        cases e; simp only at hek; rw [hek]
-  · rw [hs.hats, hs.hlog]; simp [CVol.init, Vol.init, hs.hlen]
-
 /-! ## the theorems -/
 
 /-- **Compaction is invisible to readers** — partial: for EVERY well-formed volume `s0` (in particular
@@ -345,6 +316,52 @@ theorem compaction_invisible_from_fresh (kind : Kind) (ttl : Nat × Nat) (pre op
   exact ⟨no_resurrection s0 hw alg nowSec ops order t t' k hcov,
     fun h1 h2 h3 => compaction_invisible_partial s0 hw alg nowSec ops order t t' k hcov h1 h2 h3⟩
 
+
+/-! ## reads before the commit = reads without compaction; judge predicates -/
+
+
+theorem opStep_snap (s : CVol) (x : Option Snap) (t : Nat) (op : Op) :
+    opStep { s with snap := x } t op = ({ (opStep s t op).1 with snap := x }, (opStep s t op).2) := by
+  unfold opStep
+  by_cases h : (step s.v op).1.log.length = s.v.log.length
+  · simp only [h, if_true]; cases op <;> rfl
+  · simp only [h, if_false]; cases op <;> rfl
+
+theorem runOps_snap (s : CVol) (x : Option Snap) (ops : List (Nat × Op)) :
+    runOps { s with snap := x } ops = { runOps s ops with snap := x } := by
+  induction ops generalizing s with
+  | nil => rfl
+  | cons o ops ih =>
+    obtain ⟨t, op⟩ := o
+    simp only [runOps, opStep_snap]
+    exact ih _
+
+/-- the reads before the commit are the reads of the volume WITHOUT compaction: `Compact`/`Compact2`
+    only write .cpd/.cpx, the operations in flight are applied to the old files -/
+theorem reads_ignore_compaction (s0 : CVol) (alg nowSec : Nat) (ops : List (Nat × Op)) (t k : Nat) :
+    view (beforeCommit s0 alg nowSec ops) t k = view (runOps s0 ops) t k := by
+  unfold beforeCommit compact
+  rw [runOps_snap]
+  rfl
+
+/-- the judge's class predicates are the theorem's exclusion predicates -/
+theorem emptyBlob_iff (s : CVol) (k : Nat) : EmptyBlob s k ↔ isEmptyBlob s k = true := by
+  unfold EmptyBlob isEmptyBlob
+  cases h : s.v.idx k with
+  | none => simp
+  | some e =>
+    obtain ⟨o, sz⟩ := e
+    simp
+
+/-- the statement of the property, literally: reads(commit(compact s) during) = reads(apply during s) -/
+theorem compaction_invisible_vs_uncompacted (s0 : CVol) (hw : WF s0) (alg nowSec : Nat) (ops : List (Nat × Op))
+    (order : List Nat) (t t' k : Nat)
+    (hcov : Covers s0 (beforeCommit s0 alg nowSec ops) order)
+    (hne : ¬ EmptyBlob (beforeCommit s0 alg nowSec ops) k)
+    (httl : ¬ TtlDropped s0 (beforeCommit s0 alg nowSec ops) nowSec k)
+    (hcut : NoTruncation (beforeCommit s0 alg nowSec ops) order t) :
+    view (afterCommit s0 alg nowSec ops order t) t' k = view (runOps s0 ops) t' k := by
+  rw [compaction_invisible_partial s0 hw alg nowSec ops order t t' k hcov hne httl hcut, reads_ignore_compaction]
 
 /-! ## the full-strength statement is false of the code: witnesses (replayed on the real code in corpus/C04/witnesses.ops) -/
 
